@@ -65,14 +65,15 @@ OtherDomain(typ) == IF typ = "attester" THEN "DOMAIN_BEACON_PROPOSER" ELSE "DOMA
 IsAtt(typ) == typ = "attester"
 Contents == {"A", "B"}
 
-VARIABLES typ, set,      \* the call: object type, validator (1..k) |-> sequence of partials
+VARIABLES bn,            \* "up" | "down": the beacon node answers / fails the verifier's domain and spec look-ups during the call
+          typ, set,      \* the call: object type, validator (1..k) |-> sequence of partials
           phase,         \* "idle" | "agg" | "notify" | "done"
           todo,          \* validators not yet aggregated
           output,        \* validator |-> [content, valid]
           nextSub,       \* next subscriber to call
           pubs,          \* subscriber calls so far: [sub, out]
           ret            \* "none" | "ok" | "err"
-vars == <<typ, set, phase, todo, output, nextSub, pubs, ret>>
+vars == <<bn, typ, set, phase, todo, output, nextSub, pubs, ret>>
 
 ------------------------------------------------------------------------------------------------------------
 Idxs(ps) == {ps[k].idx : k \in DOMAIN ps}
@@ -128,8 +129,10 @@ AllOK(ps, ty) == /\ Len(ps) >= T /\ NoDup(ps)
                  /\ \A k \in DOMAIN ps : Valid(ps[k], ty) /\ ps[k].content = ps[1].content
 Err == [k |-> "err"]
 Pub(c, v) == [k |-> "pub", content |-> c, valid |-> v]
+\* while the beacon node cannot answer the verifier's look-ups nothing can be verified: giving up is always allowed then
+\* (and publishing stays allowed only for what IS group-valid)
 Allowed(ps, ty) == IF MustFail(ps, ty) THEN {Err}
-                   ELSE IF AllOK(ps, ty) THEN {Pub(ps[1].content, TRUE)}
+                   ELSE IF AllOK(ps, ty) THEN {Pub(ps[1].content, TRUE)} \cup (IF bn = "down" THEN {Err} ELSE {})
                    ELSE {Err} \cup {Pub(c, TRUE) : c \in Possible(ps, ty)}
 
 \* aggregate() as coded
@@ -145,16 +148,18 @@ Coded(ps, ty) ==
        ELSE IF \E i \in DOMAIN m : m[i].form # "ok" THEN Err        \* undecodable (or, for "zero", never valid)
        ELSE LET c == FullSig(ps, ty).content
                 ok == AlgValid({m[i] : i \in DOMAIN m}, c, ty)
-            IN IF AggMode # "noverify" /\ ~ok THEN Err ELSE Pub(c, ok)
+            IN IF AggMode # "noverify" /\ (~ok \/ bn = "down") THEN Err ELSE Pub(c, ok)    \* no verdict of the verifier: an error
 Outcomes(ps, ty) == IF AggMode = "free" THEN Allowed(ps, ty) ELSE {Coded(ps, ty)}
 
 ------------------------------------------------------------------------------------------------------------
-InitWith(ty, s) == /\ typ = ty /\ set = s /\ phase = "idle" /\ todo = {} /\ output = <<>> /\ nextSub = 1
+InitWith(ty, s) == /\ bn = "up" /\ typ = ty /\ set = s /\ phase = "idle" /\ todo = {} /\ output = <<>> /\ nextSub = 1
+                   /\ pubs = <<>> /\ ret = "none"
+InitWithBN(ty, s, b) == /\ bn = b /\ typ = ty /\ set = s /\ phase = "idle" /\ todo = {} /\ output = <<>> /\ nextSub = 1
                    /\ pubs = <<>> /\ ret = "none"
 Call == /\ phase = "idle"
         /\ IF Len(set) = 0 THEN phase' = "done" /\ ret' = "err" /\ UNCHANGED todo     \* "empty partial signed data set"
            ELSE phase' = "agg" /\ todo' = DOMAIN set /\ UNCHANGED ret
-        /\ UNCHANGED <<typ, set, output, nextSub, pubs>>
+        /\ UNCHANGED <<bn, typ, set, output, nextSub, pubs>>
 \* one iteration of the loop over the validators (Go map order: any not yet handled validator)
 AggStep(v) == /\ phase = "agg" /\ v \in todo
               /\ \E r \in Outcomes(set[v], typ) :
@@ -166,15 +171,15 @@ AggStep(v) == /\ phase = "agg" /\ v \in todo
                         /\ todo' = todo \ {v}
                         /\ phase' = IF todo' = {} THEN "notify" ELSE "agg"
                         /\ UNCHANGED ret
-              /\ UNCHANGED <<typ, set, nextSub, pubs>>
+              /\ UNCHANGED <<bn, typ, set, nextSub, pubs>>
 \* subscriber k receives (a clone of) the complete output
 Notify(k) == /\ phase = "notify" /\ k = nextSub /\ k <= NSubs
              /\ pubs' = Append(pubs, [sub |-> k, out |-> output])
              /\ nextSub' = k + 1
-             /\ UNCHANGED <<typ, set, phase, todo, output, ret>>
+             /\ UNCHANGED <<bn, typ, set, phase, todo, output, ret>>
 Return == /\ phase = "notify" /\ nextSub > NSubs
           /\ phase' = "done" /\ ret' = IF ret = "err" THEN "err" ELSE "ok"
-          /\ UNCHANGED <<typ, set, todo, output, nextSub, pubs>>
+          /\ UNCHANGED <<bn, typ, set, todo, output, nextSub, pubs>>
 Next == Call \/ (\E v \in DOMAIN set : AggStep(v)) \/ (\E k \in 1..NSubs : Notify(k)) \/ Return
 
 ------------------------------------------------------------------------------------------------------------
@@ -188,10 +193,10 @@ NothingOnFault == (\E v \in DOMAIN set : MustFail(set[v], typ)) => (pubs = <<>> 
 AllOrNothing == \A i \in DOMAIN pubs : /\ DOMAIN pubs[i].out = DOMAIN set
                                        /\ \A v \in DOMAIN set : Pub(pubs[i].out[v].content, pubs[i].out[v].valid) \in Allowed(set[v], typ)
 \* a call whose partials are all in order is published, once per subscriber
-PublishOnOK == (phase = "done" /\ Len(set) > 0 /\ \A v \in DOMAIN set : AllOK(set[v], typ))
+PublishOnOK == (bn = "up" /\ phase = "done" /\ Len(set) > 0 /\ \A v \in DOMAIN set : AllOK(set[v], typ))
                   => (ret = "ok" /\ Len(pubs) = NSubs /\ \A k \in 1..NSubs : pubs[k].sub = k)
 ErrMeansNothing == (phase = "done" /\ ret = "err") => pubs = <<>>
-TypeOK == /\ phase \in {"idle", "agg", "notify", "done"} /\ ret \in {"none", "ok", "err"}
+TypeOK == /\ bn \in {"up", "down"} /\ phase \in {"idle", "agg", "notify", "done"} /\ ret \in {"none", "ok", "err"}
           /\ typ \in Types /\ nextSub \in 1..(NSubs + 1)
 Safety == TypeOK /\ GroupValid /\ NothingOnFault /\ AllOrNothing /\ PublishOnOK /\ ErrMeansNothing
 ====
